@@ -372,6 +372,9 @@ func runWorker(b *builds, prop string, ph phase, seed, from, to uint64, id int, 
 	}
 	go func() { done <- cmd.Wait() }()
 	limit := 20 * time.Minute
+	if os.Getenv("XPCHECK_TIER") == "quick" {
+		limit = 6 * time.Minute // a quick batch takes seconds; a worker that spins without events is harness trouble
+	}
 	select {
 	case err := <-done:
 		if err != nil {
@@ -610,6 +613,7 @@ func replayOnce(b *builds, path string, race bool, trace bool) (code int, out st
 
 func cmdCheck(prop, tier string, phases []phase) int {
 	seed := seedEnv()
+	os.Setenv("XPCHECK_TIER", tier)
 	if os.Getenv("XPCHECK_SHRINK_TIME") == "" {
 		if tier == "thorough" {
 			os.Setenv("XPCHECK_SHRINK_TIME", "120s")
